@@ -132,7 +132,7 @@ class Oracle:
         self.pm = pm
         self.RuntimeToken = RuntimeToken
         self.evals = {"type": 0, "range": 0, "enum": 0, "complete": 0, "unknown_key": 0, "dropped_key": 0,
-                      "time_validator": 0, "machine": 0, "default": 0}
+                      "time_validator": 0, "machine": 0, "default": 0, "list_norm": 0}
         self.viol = []
 
     # -- bookkeeping ---------------------------------------------------------------------
@@ -209,15 +209,21 @@ class Oracle:
             if type(out) is not list:
                 self.bad("type", "C12:ill_typed_list", path, inp=repr(inp)[:200], out=repr(out)[:200])
                 return
+            self.container_norm("list", inp, out, path)
             none_ok = contains_noneish(inp)
-            paired = isinstance(inp, list) and len(inp) == len(out)
+            src = None
+            if isinstance(inp, list) and len(inp) == len(out):
+                src = inp
+            elif isinstance(inp, (bool, int, float)) and len(out) == 1:
+                src = [inp]          # a scalar is a one-element list
             for i, e in enumerate(out):
-                self.val(validation, inp[i] if paired else UNKNOWN, e, "%s[%d]" % (path, i), depth, none_ok)
+                self.val(validation, src[i] if src is not None else UNKNOWN, e, "%s[%d]" % (path, i), depth, none_ok)
         elif item_type == "set":
             self.evals["type"] += 1
             if type(out) is not set:
                 self.bad("type", "C12:ill_typed_set", path, inp=repr(inp)[:200], out=repr(out)[:200])
                 return
+            self.container_norm("set", inp, out, path)
             none_ok = contains_noneish(inp)
             for e in out:
                 self.val(validation, UNKNOWN, e, path + "{}", depth, none_ok)
@@ -226,6 +232,42 @@ class Oracle:
         else:
             self.evals["type"] += 1
             self.bad("type", "C12:unknown_item_type_accepted", path, item_type=item_type)
+
+    def container_norm(self, kind, inp, out, path):
+        """A provided value must not vanish while a list/set is normalised: a scalar (also a falsy one: 0, 0.0,
+        False) is a one-element container, n list elements / n comma separated parts stay n elements (set: 1..n),
+        a non-empty container of another kind must not come back empty.  Nothing is demanded for None, '' (both mean
+        "no elements"), 'none'-like strings, strings with '{' (event templates are split by a pattern) and EMPTY
+        dicts/tuples (nothing in them to lose)."""
+        if inp is UNKNOWN or inp is MISSING or inp is None:
+            return
+        n_out = len(out)
+        scalar = False
+        if isinstance(inp, str):
+            if inp == "" or "{" in inp or is_noneish(inp):
+                return
+            n = len(inp.split(","))
+        elif isinstance(inp, (bool, int, float)):
+            n, scalar = 1, True
+        elif isinstance(inp, list):
+            n = len(inp)
+        elif isinstance(inp, (dict, tuple, set, frozenset)):
+            if len(inp) == 0:
+                return
+            n = None
+        else:
+            return
+        self.evals["list_norm"] += 1
+        if n is None:
+            ok = n_out >= 1
+        elif kind == "set":
+            ok = (1 <= n_out <= n) if n >= 1 else n_out == 0
+        else:
+            ok = n_out == n
+        if not ok:
+            vanished = n_out == 0 or scalar
+            self.bad("list_norm", "C12:list_provided_value_dropped" if vanished else "C12:list_length_changed", path,
+                     kind=kind, inp=repr(inp)[:200], out=repr(out)[:200], expected_elements=n)
 
     def dict_of(self, validation, inp, out, path, depth):
         self.evals["type"] += 1
@@ -330,6 +372,8 @@ class Oracle:
         if name == "list":
             if not isinstance(out, list):
                 return ill()
+            if not unknown:
+                self.container_norm("list", inp, out, path)
             return
         if name == "int_from_hex":
             if type(out) is not int:
